@@ -220,6 +220,19 @@ func doParseNow(isObj bool, s string) (po parseOut) {
 		if err != nil {
 			return classify(err)
 		}
+		if len(s) < 1<<16 {
+			// what a parse returns belongs to the caller: the result is scribbled over and the same text parsed once more - the
+			// second result is the one that counts (a parser that remembers texts or hands out shared trees shows the scribbles)
+			scribble(o)
+			o2, err2 := at.ParseObject(s)
+			if err2 != nil || o2 == nil {
+				return parseOut{class: "other", errText: "the second parse of the same text failed: " + fmt.Sprint(err2), panicked: true}
+			}
+			if o2 == o {
+				return parseOut{class: "other", errText: "two parses of one text returned the identical container", panicked: true}
+			}
+			o = o2
+		}
 		return parseOut{ok: true, tree: fromAny(o)}
 	}
 	l, err := at.ParseList(s)
@@ -229,7 +242,35 @@ func doParseNow(isObj bool, s string) (po parseOut) {
 	if err != nil {
 		return classify(err)
 	}
+	if len(s) < 1<<16 {
+		scribble(l)
+		l2, err2 := at.ParseList(s)
+		if err2 != nil || l2 == nil {
+			return parseOut{class: "other", errText: "the second parse of the same text failed: " + fmt.Sprint(err2), panicked: true}
+		}
+		if l2 == l {
+			return parseOut{class: "other", errText: "two parses of one text returned the identical container", panicked: true}
+		}
+		l = l2
+	}
 	return parseOut{ok: true, tree: fromAny(l)}
+}
+
+// scribble changes every container of a tree in place: an extra element / member, the first element replaced, nested ones first
+func scribble(x any) {
+	switch c := x.(type) {
+	case at.List:
+		for i := 0; i < c.Count(); i++ {
+			scribble(c.Get(i))
+		}
+		if c.Count() > 0 {
+			c.Replace(0, "scribbled")
+		}
+		c.Add("scribble", 1)
+	case at.Object:
+		c.ForEachValue(func(v any) { scribble(v) })
+		c.Set("scribble", true)
+	}
 }
 
 func (po parseOut) coq() string {
@@ -889,7 +930,9 @@ func (r *R) jsonObject(depth int) string {
 // in a nested container; wide and long rather than deep. A limit or a counter that is only reached after thousands of tokens,
 // records or levels opened-and-closed would show here.
 func bigDocCases(r *R, out *Out) {
-	for _, isObj := range []bool{false, true} {
+	for variant := 0; variant < 4; variant++ {
+		isObj := variant%2 == 1
+		minified := variant >= 2 // the whole document on ONE line (several hundred kilobytes without a line break)
 		var b strings.Builder
 		nrec := 10500 + r.Intn(3000)
 		if isObj {
@@ -912,7 +955,7 @@ func bigDocCases(r *R, out *Out) {
 			default:
 				fmt.Fprintf(&b, "[%d,[true,null],{\"z\":{}}]", k)
 			}
-			if k%500 == 0 {
+			if k%500 == 0 && !minified {
 				b.WriteString("\n")
 			}
 		}
@@ -932,9 +975,33 @@ func bigDocCases(r *R, out *Out) {
 		} else if po.tree.canon() != ref.canon() {
 			f.fail("a large document parsed differently from the reference decoder")
 		}
-		out.emit(&Case{Coq: "", Desc: map[string]any{"large_document": map[string]any{"records": nrec, "bytes": len(s), "object_root": isObj}}, Pred: f.pred, PredMsg: f.msg,
-			Nontrivial: true, Key: fmt.Sprintf("bigdoc/%v/%d", isObj, nrec), Tags: []string{"large-document"}})
+		if isObj && ok { // and the same bytes read from a file
+			if tmp, err := os.MkdirTemp("", "anytype-big-"); err == nil {
+				path := tmp + "/big.json"
+				if os.WriteFile(path, []byte(s), 0o600) == nil {
+					pf := watchParse(func() parseOut { return parseFileNow(path) })
+					if !pf.ok {
+						f.fail("ParseFile rejected a valid document of %d bytes (longest line %d bytes) that ParseObject accepts: %s", len(s), longestLine(s), pf.errText)
+					} else if pf.tree.canon() != ref.canon() {
+						f.fail("ParseFile read a large document differently from the reference decoder")
+					}
+				}
+				os.RemoveAll(tmp)
+			}
+		}
+		out.emit(&Case{Coq: "", Desc: map[string]any{"large_document": map[string]any{"records": nrec, "bytes": len(s), "object_root": isObj, "one_line": minified}}, Pred: f.pred, PredMsg: f.msg,
+			Nontrivial: true, Key: fmt.Sprintf("bigdoc/%v/%v/%d", isObj, minified, nrec), Tags: []string{"large-document"}})
 	}
+}
+
+func longestLine(s string) int {
+	best := 0
+	for _, l := range strings.Split(s, "\n") {
+		if len(l) > best {
+			best = len(l)
+		}
+	}
+	return best
 }
 
 func genC03(r *R, n int, tier string, out *Out) {
